@@ -90,6 +90,7 @@ Raw ==
              /\ E.size = Len(b)
              /\ E.ty = TypeOf(b)
              /\ E.len = NumKeys(b, v)
+             /\ E.empty = (NumKeys(b, v) = UZero)
              /\ E.verify = VerifyWant(b))
     /\ l' = l + 1 /\ UNCHANGED <<phase, cursor, pending, nodes, crcT>>
 
